@@ -58,10 +58,12 @@ const (
 	// bid app escrow: there is no escrow account - the locked value exists only as the amount of the ACTIVE offer of type "bid"
 	// with status "locked" of a conversation (extBidOffer_ACTIVE_<id>); owner = the conversation's bidder (sub = conversation)
 	c02BBidEscrow = 13
+	// side record: the wrapped-currency supply counter = balance of ChainDriverOption.TotalSupplyAddr in ETH / tokens (bookkeeping)
+	c02BSupply = 14
 )
 
 var c02BucketNames = []string{"balance", "fee", "stake", "unstaking", "withdrawable", "undelegating", "reward_claim", "reward_withdrawing", "proposal_fund", "delegated",
-	"validator_reward_matured", "validator_reward_withdrawn", "validator_reward_interval", "bid_escrow"}
+	"validator_reward_matured", "validator_reward_withdrawn", "validator_reward_interval", "bid_escrow", "wrapped_supply_counter"}
 
 const c02FeePoolOwner = "feepool"
 
@@ -135,6 +137,15 @@ func c02Decode(m map[string]string) *c02View {
 			v.Led[k] = a
 		}
 	}
+	supply := map[string]bool{}
+	for k, val := range m {
+		if strings.HasPrefix(k, "g_") && strings.HasSuffix(k, "_ethcdopt") {
+			o := &ethchain.ChainDriverOption{}
+			if json.Unmarshal([]byte(val), o) == nil && o.TotalSupplyAddr != "" {
+				supply[keys.Address(o.TotalSupplyAddr).String()] = true
+			}
+		}
+	}
 	for _, k := range sortedKeys(m) {
 		val := m[k]
 		switch {
@@ -149,6 +160,10 @@ func c02Decode(m map[string]string) *c02View {
 			a, ok := c02Amt(val)
 			if !ok {
 				v.Bad = append(v.Bad, k)
+				continue
+			}
+			if supply[rest[:i]] && rest[i+1:] != "OLT" {
+				v.Side[c02Key{rest[:i], c02BSupply, rest[i+1:], ""}] = a // the wrapped-supply counter: bookkeeping, not value
 				continue
 			}
 			add(c02Key{rest[:i], c02BBal, rest[i+1:], ""}, a)
